@@ -83,6 +83,8 @@ def skeleton(prog):
             out.append(["leaf", s["kind"], s["shape"]])
         elif s["k"] == "op":
             out.append([s["op"], s["args"], s.get("p")])
+        elif s["k"] == "guard":
+            out.append(["guard", s["on"]])
         else:
             out.append([s["k"], s.get("kind"), s.get("op"), s.get("target"), s.get("args"), s.get("p")])
     return out
